@@ -1,8 +1,130 @@
 /-
-  C17 — property theorems (only `theorem C17_*` statements and non-vacuity examples live here;
-  helper lemmas go to CedarGoProofs/Lemmas/).
+  C17 — Schema codecs round-trip and preserve the resolved schema.
+
+  * JSON: `Schema.MarshalJSON` / `UnmarshalJSON` at the level of the Go structs `encoding/json` reads and writes
+    (CedarGo/Model/Schema/Json.lean) round-trip every schema the JSON form can represent (`SchemaJsonOk`); hence
+    resolution commutes with the JSON trip.  What `SchemaJsonOk` excludes is what the code loses: an enum with no
+    values comes back as an entity type (`C17_schema_json_roundtrip_counterexample`), memberOfTypes are sorted.
+  * Cedar text: the printer (CedarGo/Model/Schema/Text.lean, byte-identical to `MarshalCedar` on the generated
+    corpus) is NOT injective modulo resolution: two schemas that resolve differently print to the same bytes, so no
+    parser can round-trip both (`C17_print_primitive_shadow_counterexample`,
+    `C17_print_entity_ref_counterexample`).
+  * `quoteCedar` (attribute names, action names, enum values, annotation values) is undone by the lexer's
+    `rust.Unquote`: `C17_quoteCedar_unquote`.
+  The text LEXER/PARSER is modelled executably only (CedarGo/Model/Schema/Parser.lean, `partial def` loops, tied to the
+  Go parser by the `schema-parse` and `schema-text-roundtrip` correspondence ops — rendered, hand-written and mutated
+  texts); no theorem is stated about it.  text→AST→text, text→JSON→text and JSON→text→JSON are checked by the search
+  oracle of harness/cmd/vh/c17.go on the implementation.
 -/
-import CedarGo.Model.Fold
+import CedarGoProofs.Lemmas.C17Quote
 namespace CedarGo
+open CedarGo.Schema
+
+/-- FULL STATEMENT (false, see the counterexample): `unmarshalSchema (marshalSchema s) = .ok s` for every schema.
+    PROVED PART: for every schema the JSON form can represent — entity parent lists sorted (the encoder sorts
+    `memberOfTypes`), no enum without values, no name declared both as entity and enum in one namespace, no
+    annotations on the empty namespace, no namespace called "". -/
+theorem C17_schema_json_roundtrip_partial (s : Schema) (h : SchemaJsonOk s) : unmarshalSchema (marshalSchema s) = .ok s :=
+  unmarshal_marshalSchema s h
+
+instance {ε α} [DecidableEq ε] [DecidableEq α] : DecidableEq (Except ε α)
+  | .ok a, .ok b => if h : a = b then isTrue (by rw [h]) else isFalse (by intro h'; cases h'; exact h rfl)
+  | .error a, .error b => if h : a = b then isTrue (by rw [h]) else isFalse (by intro h'; cases h'; exact h rfl)
+  | .ok _, .error _ => isFalse (by intro h; cases h)
+  | .error _, .ok _ => isFalse (by intro h; cases h)
+
+/-- `entity A in [B]; entity B; entity Color enum ["r"]; type T = {a?: Set<Long>}; action "view" appliesTo {…}` in a namespace -/
+def c17SampleNs : Namespace where
+  anns := [("doc", "x")]
+  enums := [("Color", { values := ["r"] })]
+  commonTypes := [("T", { ty := .record (.cons "a" true [] (.set .long) .nil) })]
+  actions := [("view", { parents := [("", "edit")],
+                         appliesTo := some { principals := ["A"], resources := ["B"], context := some (.typeRef "T") } }),
+              ("edit", {})]
+
+def c17Sample : Schema where
+  bare := { entities := [("A", { parents := ["B"] }), ("B", {})] }
+  namespaces := [("NS", c17SampleNs)]
+
+example : SchemaJsonOk c17Sample := by
+  refine ⟨⟨?_, ?_, ?_⟩, rfl, ?_⟩
+  · intro e he
+    simp only [c17Sample, List.mem_cons, List.not_mem_nil, or_false] at he
+    rcases he with rfl | rfl <;> decide
+  · intro e he; simp [c17Sample] at he
+  · intro e _ en hen; simp [c17Sample] at hen
+  · intro nd hnd
+    simp only [c17Sample, List.mem_cons, List.not_mem_nil, or_false] at hnd
+    subst hnd
+    refine ⟨⟨?_, ?_, ?_⟩, by decide⟩
+    · intro e he; simp [c17SampleNs] at he
+    · intro e he; simp [c17SampleNs] at he; subst he; simp
+    · intro e he; simp [c17SampleNs] at he
+
+/-- `entity Color enum [];` (accepted by the text parser): the JSON trip turns the enum into an entity type. -/
+theorem C17_schema_json_roundtrip_counterexample :
+    ∃ s : Schema, unmarshalSchema (marshalSchema s) ≠ .ok s :=
+  ⟨{ bare := { enums := [("Color", {})] } }, by
+    have : unmarshalSchema (marshalSchema { bare := { enums := [("Color", {})] } }) =
+        .ok { bare := { entities := [("Color", {})] } } := by decide +kernel
+    rw [this]
+    intro h
+    injection h with h
+    exact absurd h (by decide)⟩
+
+/-- Converting to JSON and back commutes with resolution (for every schema the JSON form can represent). -/
+theorem C17_json_commutes_with_resolve_partial (s : Schema) (h : SchemaJsonOk s) :
+    (unmarshalSchema (marshalSchema s)).toOption.map resolve = some (resolve s) := by
+  rw [C17_schema_json_roundtrip_partial s h]
+  rfl
+
+/-- JSON `{"entityTypes": {"Long": {}, "X": {"shape": {… "a": {"type": "Long"}}}}}`: `a` is the PRIMITIVE Long -/
+def shadowJson : Schema :=
+  { bare := { entities := [("Long", {}), ("X", { shape := some (.cons "a" false [] .long .nil) })] } }
+
+/-- what the text `entity Long; entity X { a: Long };` denotes: `a` refers to the name `Long` -/
+def shadowText : Schema :=
+  { bare := { entities := [("Long", {}), ("X", { shape := some (.cons "a" false [] (.typeRef "Long") .nil) })] } }
+
+/-- The printer writes the primitive type node as the bare name `Long`: `shadowJson` and `shadowText` print to the same
+    bytes, yet the first resolves `a` to the primitive `Long` and the second to the ENTITY type `Long`.
+    So `MarshalCedar` followed by any parser cannot preserve the resolved schema of both. -/
+theorem C17_print_primitive_shadow_counterexample :
+    ∃ s s' : Schema, printSchema s = printSchema s' ∧ resolve s ≠ resolve s' ∧
+      (∃ rs, resolve s = some (.ok rs)) ∧ (∃ rs', resolve s' = some (.ok rs')) := by
+  refine ⟨shadowJson, shadowText, by decide +kernel, by decide +kernel, ?_, ?_⟩
+  · have : (match resolve shadowJson with | some (.ok _) => true | _ => false) = true := by decide +kernel
+    revert this
+    cases resolve shadowJson with
+    | none => simp
+    | some r => cases r with
+      | error _ => simp
+      | ok rs => exact fun _ => ⟨rs, rfl⟩
+  · have : (match resolve shadowText with | some (.ok _) => true | _ => false) = true := by decide +kernel
+    revert this
+    cases resolve shadowText with
+    | none => simp
+    | some r => cases r with
+      | error _ => simp
+      | ok rs => exact fun _ => ⟨rs, rfl⟩
+
+/-- The same loss for `{"type": "Entity", "name": "X"}` when a common type `X` is in scope: printed as `X`, which
+    denotes the common type. -/
+theorem C17_print_entity_ref_counterexample :
+    ∃ s s' : Schema, printSchema s = printSchema s' ∧ resolve s ≠ resolve s' := by
+  refine ⟨{ bare := { entities := [("X", {}), ("Y", { shape := some (.cons "b" false [] (.entityRef "X") .nil) })], commonTypes := [("X", { ty := .long })] } },
+          { bare := { entities := [("X", {}), ("Y", { shape := some (.cons "b" false [] (.typeRef "X") .nil) })], commonTypes := [("X", { ty := .long })] } },
+          by decide +kernel, by decide +kernel⟩
+
+/-- `quoteCedar` uses only escapes the lexer understands: unquoting the body of `quoteCedar s` (what the schema lexer
+    does with a string token, `rust.Unquote(raw, false)`) gives back `s`, for every string. -/
+theorem C17_quoteCedar_unquote (s : String) : unquoteCedar (quoteBody s.toList) = some s.toList :=
+  unquoteFuel_quoteBody s.toList _ (Nat.le_refl _)
+
+example : quoteCedar "a\"b\\\n\x00é" = "\"a\\\"b\\\\\\n\\0\\u{e9}\"" := by decide +kernel
+
+/-- and the quoted form is the body between two double quotes -/
+theorem C17_quoteCedar_shape (s : String) : (quoteCedar s).toList = '"' :: quoteBody s.toList ++ ['"'] := by
+  simp [quoteCedar]
 
 end CedarGo
